@@ -52,6 +52,17 @@ func verifDeploy(n int) *verifDeployment {
 		if err != nil {
 			rt.Cut("configuration refused at start-up")
 		}
+		if rt.Prop("C12") || rt.Prop("C02") {
+			// every component agrees on a log's identity: the origin a component holds for an ID is
+			// an origin whose ID it is, and the witness map has an entry under the ID the others use
+			rt.Assert(rt.LogID(l.Origin) == l.ID, "C12/feeder-side-id-is-id-of-its-origin")
+			wi, ok := known[l.ID]
+			rt.Assert(ok, "C12/witness-files-the-log-under-the-shared-id")
+			if ok {
+				rt.Assert(rt.LogID(wi.Origin) == l.ID, "C12/witness-origin-matches-its-id")
+				rt.Assert(wi.Origin == l.Origin, "C12/witness-and-feeders-expect-the-same-origin")
+			}
+		}
 		logs = append(logs, l)
 		d.ids = append(d.ids, l.ID)
 		d.keys = append(d.keys, rt.UFU64("keyOfText", d.pks[i]))
